@@ -34,6 +34,7 @@ class ClientTrace(Trace):
         self.session = 0
         self.cli = APIClient("10.0.0.1", 6053, password, keepalive=keepalive_units / 1024.0, expected_name=expected_name)
         self.user_stops = []
+        self.established = set()
         self.user_hook = user_hook      # start_connection(on_stop=...) given by the caller or left None
         loop.before_callback = self._before
         loop.after_callback = self._after
@@ -85,6 +86,10 @@ class ClientTrace(Trace):
             self.cur_label = "silent"
 
     def _after(self, handle):
+        # which connection objects ever were CONNECTED (for C07: the user's stop callback belongs to those only)
+        for cn in self.conns:
+            if cn.is_connected:
+                self.established.add(id(cn))
         label = self.cur_label
         if label is None:
             return
